@@ -213,6 +213,31 @@ func (w *w1World) checkSettled() {
 	}
 	// C26: the node is broker-subscribed to exactly the channels with local subscribers
 	if w.pubsub != nil {
+		// "once subscriptions settle and deferred work drains": a connection the server
+		// itself closed late in the settle window (write error, stale timer) has its deferred
+		// broker unsubscribe (1 s + retries) still queued. The leak clause is a bounded
+		// eventually: wait, in whole simulated seconds and at most 10 of them, while some
+		// channel has no local subscriber but is still broker-subscribed.
+		for i := 0; i < 10; i++ {
+			pending := false
+			var bsubbed []string
+			for ch, bs := range w.pubsub.subscribed {
+				if bs > 0 {
+					bsubbed = append(bsubbed, ch)
+				}
+			}
+			sort.Strings(bsubbed)
+			for _, ch := range bsubbed {
+				if w.node.hub.NumSubscribers(ch) == 0 {
+					pending = true
+				}
+			}
+			if !pending {
+				break
+			}
+			s.Probe("c26_waited_for_deferred_unsubscribe")
+			s.Sleep(time.Second)
+		}
 		chs := map[string]bool{}
 		for _, ch := range w.sc.Channels {
 			chs[ch] = true
